@@ -4,6 +4,16 @@ import os, sys
 sys.path.insert(0, os.path.dirname(os.path.dirname(os.path.abspath(__file__))))
 from harness import tlc
 bad = [(f, msg) for f, ok, msg in tlc.sany_all() if not ok]
+# modules written for Apalache are type-checked by Apalache itself
+import re, subprocess, shutil
+for f in sorted(os.listdir(tlc.SPECS)):
+    if f.endswith('.tla') and re.search(r'^EXTENDS.*\bApalache\b', open(os.path.join(tlc.SPECS, f)).read(), re.M):
+        d = tlc.mkscratch('apa-')
+        shutil.copy(os.path.join(tlc.SPECS, f), d)
+        p = subprocess.run(['apalache-mc', 'typecheck', '--out-dir=' + os.path.join(d, 'out'), f], cwd=d, stdout=subprocess.PIPE,
+                           stderr=subprocess.STDOUT, universal_newlines=True)
+        if 'EXITCODE: OK' not in p.stdout:
+            bad.append((f, p.stdout[-1500:]))
 tlc.cleanup()
 for f, msg in bad:
     print('SANY failed for %s:\n%s' % (f, msg))
